@@ -52,14 +52,16 @@ Section PartConf.
   (* ---- vpartition ---- *)
   Definition src_vpartition (kth : nat) (sort rev : bool) (xs : list T) : res (list T) :=
     let n := count_valid xs in
-    let '(c1, k1) := src_vpartition_exact in
+    let '(c1, k1, k1') := src_vpartition_exact in
     let '(c2, k2) := src_vpartition_small in
-    let '(s, t) := src_vpartition_select in
-    if mcmp_nat c1 n (kth + k1) && negb sort then Ok (filter not_none xs) else
+    let '(s, t, t') := src_vpartition_select in
+    (* `.to_trust(len)` announces a length: it has to be the length the pipeline has *)
+    if mcmp_nat c1 n (kth + k1) && negb sort then (if k1 =? k1' then Ok (filter not_none xs) else Panic OtherPanic) else
     if mcmp_nat c2 n (kth + k2) then
       match blookup sort src_vpartition_small_arms with
-      | Some (pad, tk) =>
+      | Some (pad, tk, tk') =>
           let v := if sort then isort (dir_of src_vpartition_small_dir rev) xs else filter not_none xs in
+          if negb (tk =? tk') then Panic OtherPanic else
           match pad with
           | PadEager => do p <- tnone; Ok (pad_take (kth + tk) p v)               (* repeat(T::none()): evaluated eagerly *)
           | PadLazy => if length v <? kth + tk then do p <- tnone; Ok (pad_take (kth + tk) p v)
@@ -70,7 +72,7 @@ Section PartConf.
     else
       let cmp := dir_of src_vpartition_dir rev in
       (* select_nth_unstable_by(kth + s) orders the first kth + s + 1 elements as a set: truncating there is a sorted prefix *)
-      if s + 1 =? t then
+      if (s + 1 =? t) && (t =? t') then
         let tt := firstn (kth + t) (isort cmp xs) in Ok (if sort then isort cmp tt else tt)
       else Panic OtherPanic.
 
@@ -86,8 +88,9 @@ Section PartConf.
     let '(c2, k2) := src_varg_partition_small in
     if mcmp_nat c2 n (kth + k2) then
       match blookup sort src_varg_partition_small_arms with
-      | Some (p, tk) =>
+      | Some (p, tk, tk') =>
           let pad := (- Z.of_nat p)%Z in
+          if negb (tk =? tk') then [] else
           if sort then
             pad_take (kth + tk) pad
               (map Z.of_nat (firstn n (isort (cmp_idx (dir_of src_varg_partition_small_dir rev) xs) (seq 0 (length xs)))))
@@ -96,9 +99,9 @@ Section PartConf.
       end
     else
       match blookup rev src_varg_partition_general with
-      | Some (sc, s, t) =>
+      | Some (sc, s, t, t') =>
           let cmpi := cmp_idx (sortcmp_pick sc (sort_cmp (T := T)) (sort_cmp_rev (T := T))) xs in
-          if s + 1 =? t then
+          if (s + 1 =? t) && (t =? t') then
             let tt := firstn (kth + t) (isort cmpi (seq 0 (length xs))) in map Z.of_nat (if sort then isort cmpi tt else tt)
           else []
       | None => []
@@ -173,14 +176,13 @@ Section PartConf.
   Qed.
 End PartConf.
 
-(* non-vacuity at the float-like dictionary of the integer carrier of Model/Cmp is not available here; the table semantics is
-   exercised on its integer parts: the guards, the padding and the lengths *)
+(* non-vacuity: the table semantics is exercised on its closed parts — the guards, the padding, the lengths, the rank operands *)
 Example src_part_examples :
   mcmp_nat (fst src_vpartition_small) 3 (2 + snd src_vpartition_small) = true /\
   mcmp_nat (fst src_vpartition_small) 4 (2 + snd src_vpartition_small) = false /\
-  mcmp_nat (fst src_vpartition_exact) 3 (2 + snd src_vpartition_exact) = true /\
-  blookup false src_vpartition_small_arms = Some (PadEager, 1) /\
-  blookup true src_varg_partition_general = Some (SrcSortCmpRev, 0, 1) /\
+  mcmp_nat (fst (fst src_vpartition_exact)) 3 (2 + snd (fst src_vpartition_exact)) = true /\
+  blookup false src_vpartition_small_arms = Some (PadEager, 1, 1) /\
+  blookup true src_varg_partition_general = Some (SrcSortCmpRev, 0, 1, 1) /\
   rk_nat {| e_sum := 5; e_rep := 2; e_cur := 7; e_nn := 10 |} (RkNMul (RkN RkRep) (RkN RkNotNoneCount)) = 20.
 Proof. vm_compute. repeat split; reflexivity. Qed.
 
